@@ -198,6 +198,8 @@ def handleFiles (args : List String) (impl : String) : String :=
       ⟨pathRepr (headerPath f.path), toString f.content.length, toString f.content.length,
        hex16 (fnv f.content), octal f.mode, "1"⟩
     let verdict :=
+      -- the harness iterates the un-reparsed value `build()` returned as well; it answers `mem-differs …` when that differs
+      if impl.startsWith "mem-differs" then "fails:unreparsed-value-differs" else
       if dup ∨ tooLong then
         -- which of two files with one destination is kept is not the property's business; that every item handed out has the
         -- recorded size and the recorded digest is (seed C08-7: the second content under the first one's digest)
@@ -350,7 +352,9 @@ def handleRawWith (pkgHex : String) (dec : Option (Bytes × Bool)) (nobz : Bool)
                 | some _ =>
                   -- size and digest are recorded once per file: judged when the archive is unanimous about the content
                   if cands.eraseDups.length ≠ 1 then none
-                  else if i.len ≠ i.size then some (if clean then "size" else "short-content")
+                  -- the item IS the content of the (only) archive entry naming this file, but the archive entry's own `filesize`
+                  -- is not the size the rpm header records for the file (`C07.item_length_eq_recorded_iff`): its own class
+                  else if i.len ≠ i.size then some (if clean then "recorded-size-disagrees" else "short-content")
                   -- a content the damaged stream itself delivers wrong is the package's inconsistency, not the iterator's
                   else if i.dg == "0" && !(streaming && cands.all (fun c => !shaMatches fe.2.2.2 c)) then some "digest"
                   else none
@@ -358,9 +362,14 @@ def handleRawWith (pkgHex : String) (dec : Option (Bytes × Bool)) (nobz : Bool)
             if o.all == "runaway" then "fails:runaway"
             else if o.all.startsWith "adapters-differ" then "fails:adapters"
             else if fails.contains "position-pairing" then "fails:position-pairing"
-            else match fails.head? with
+            -- an archive entry whose own `filesize` contradicts the size the header records is an INCONSISTENT package: the two
+            -- demands of the property ("exactly the bytes stored for it", "its length equals the recorded size") cannot both be
+            -- met and its quantifier lists no such packages — don't-care, not a failure (the model still has to predict the
+            -- code exactly; `C07.item_length_eq_recorded_iff` says when it happens)
+            else match (fails.filter (· ≠ "recorded-size-disagrees")).head? with
               | some c => "fails:" ++ c
               | none =>
+                if fails.contains "recorded-size-disagrees" then "dontcare" else
                 if !clean then "dontcare"                       -- damaged archive: an error is acceptable
                 else match unknownAt with
                   | some k =>
@@ -395,7 +404,13 @@ def handleRawWith (pkgHex : String) (dec : Option (Bytes × Bool)) (nobz : Bool)
         let zs := match dec with
           | some (_, failed) => if !streaming then "-nocodec" else if failed then "-z-failed" else "-z-eof"
           | none => ""
-        answer model verdict s!"foreign-{kind}-{shape}{plain}{nuls}{zs}"
+        -- numeric fields of the first entry spelled with upper-case digits / a leading `+` (both accepted by `from_str_radix`)
+        let alt := match arch.head? with
+          | some (.cpio _, _) => if ((p.content.drop 6).take 104).any (fun b => b == 43 || (65 ≤ b.toNat && b.toNat ≤ 70)) then "-altspelling" else ""
+          | some (.stripped _, _) => if ((p.content.drop 6).take 8).any (fun b => b == 43 || (65 ≤ b.toNat && b.toNat ≤ 70)) then "-altspelling" else ""
+          | none => ""
+        let nuls := if alt == "" then nuls else ""
+        answer model verdict s!"foreign-{kind}-{shape}{plain}{nuls}{alt}{zs}"
     | _ => answer "err-parse" "dontcare" "foreign-unparsable"
 
 def handleRaw (pkgHex : String) (impl : String) : String := handleRawWith pkgHex none false impl
